@@ -447,13 +447,13 @@ Proof.
   intros W H. destruct o as [s fp|s fp|s id|id fp|k fp|fp|s id|k|mem].
   - (* AddLocal *)
     destruct s; cbn [Reindex.step] in H.
-    + destruct (N.eqb _ _); inversion H; subst m'. rewrite set_sp_with. apply wf_with_sp.
+    + destruct (N.eqb _ _); inversion H; subst m'. apply (wf_with_sp m SF).
       * apply (wf_space_add_local _ _ (m_f m)); [exact (W SF)|discriminate].
       * intros s' _. exact (W s').
-    + inversion H; subst m'. rewrite set_sp_with. apply wf_with_sp.
+    + inversion H; subst m'. apply (wf_with_sp m SG).
       * apply (wf_space_add_local _ _ (m_g m)); [exact (W SG)|auto].
       * intros s' _. exact (W s').
-    + inversion H; subst m'. rewrite set_sp_with. apply wf_with_sp.
+    + inversion H; subst m'. apply (wf_with_sp m SM).
       * apply (wf_space_add_local _ _ (m_m m)); [exact (W SM)|discriminate].
       * intros s' _. exact (W s').
   - (* AddImport *)
@@ -484,10 +484,10 @@ Proof.
     destruct (delete_in_ok _ _ _ _ E) as [it0 [Hit0 Em1]]. cbn [get_sp] in Hit0.
     assert (it0 = it) by congruence. subst it0.
     assert (Hloc : it_imp it = None) by (unfold is_import, is_local in Ei; destruct (it_imp it); [discriminate|reflexivity]).
-    rewrite push_import_eq in H. cbv beta iota in H. inversion H; subst m'. clear H.
+    rewrite push_import_eq in H. cbv beta iota in H. injection H as Hm Hr. subst m'.
     change (m_f (with_sp m1 SF ?x ?i)) with x. cbn [s_items s_recalc s_num s_added s_nlocal].
-    rewrite set_sp_with, with_with, imports_with.
-    apply wf_with_sp.
+    assert (Hr1 : s_recalc (m_f m1) = true) by (rewrite Em1; reflexivity). rewrite Hr1.
+    apply (wf_with_sp m1 SF).
     + apply (wf_space_to_import _ _ (get_sp m1 SF) id (set_del true it)); [exact (W1 SF)| |exact Hloc].
       rewrite Em1, get_with_same. cbn [s_items]. rewrite nth_error_upd_same, Eit. reflexivity.
     + apply wf_others_snoc. exact W1.
@@ -502,12 +502,12 @@ Proof.
     pose proof (delete_in_wf _ _ _ _ W E) as W1.
     destruct (delete_in_ok _ _ _ _ E) as [it0 [Hit0 Em1]]. cbn [get_sp] in Hit0.
     assert (it0 = it) by congruence. subst it0.
-    inversion H; subst m'. clear H. rewrite set_sp_with. apply wf_with_sp.
+    injection H as Hm Hr. subst m'. rewrite set_sp_with. apply wf_with_sp.
     + apply (wf_space_to_local _ _ (get_sp m1 SF) k (set_del true it)); [exact (W1 SF)| |reflexivity].
       rewrite Em1, get_with_same. cbn [s_items]. rewrite nth_error_upd_same, Eit. reflexivity.
     + intros s' _. exact (W1 s').
   - (* ItAddGlobal *)
-    cbn [Reindex.step] in H. inversion H; subst m'. rewrite set_sp_with. apply wf_with_sp.
+    cbn [Reindex.step] in H. inversion H; subst m'. apply (wf_with_sp m SG).
     + apply (wf_space_add_local _ _ (m_g m)); [exact (W SG)|auto].
     + intros s' _. exact (W s').
   - cbn [Reindex.step] in H. inversion H; subst m'. exact W.
